@@ -36,7 +36,9 @@ def registry : List (String × (String → String)) :=
     ("full", Full.run),
     ("tb", Tb.run),
     ("tbm", Tb.runModes),
-    ("tbs", TbSim.run) ]
+    ("tbs", TbSim.run),
+    ("tbi", TbSim.checkInv),
+    ("tbn", TbSim.runN) ]
 
 def find (name : String) : Option (String → String) :=
   (registry.find? (·.1 == name)).map (·.2)
